@@ -371,7 +371,7 @@ func genMedium(r *core.Rand, streams, maxLen int, allSingle bool, pairs int, emi
 		if i%2 == 0 {
 			ms[r.Intn(len(ms))].flag = 1
 		}
-		stream := streamOf(enc, ms, []int{0, 1, 9, -2}[r.Intn(4)])
+		stream := streamOf(enc, ms, senderLevels[r.Intn(len(senderLevels))])
 		n := len(stream)
 		core.Count("medium:streams:" + enc)
 		var cuts [][]int
@@ -402,7 +402,7 @@ func genMedium(r *core.Rand, streams, maxLen int, allSingle bool, pairs int, emi
 func randSpec(r *core.Rand, dir string, maxMsgs, maxLen int) dirSpec {
 	enc := r.Pick(encs...)
 	ms := genMsgs(r, maxMsgs, maxLen)
-	stream := streamOf(enc, ms, []int{0, 1, 9, -2}[r.Intn(4)])
+	stream := streamOf(enc, ms, senderLevels[r.Intn(len(senderLevels))])
 	hs := planFor(r, enc).fields(r, dir)
 	eos := pickEOS(r, len(stream))
 	frames := randomCuts(r, stream)
@@ -526,6 +526,8 @@ func (P) Gen(r *core.Rand, tier string, emit func([]string)) {
 		genEmptyFrames(r.Fork(), 11, 400, emit)
 		genArith(r.Fork(), emit)
 		genStreams(r.Fork(), 4000, emit)
+		genCodec(r.Fork(), 12, emit)
+		genBigThenSmall(r.Fork(), tier, emit)
 		return
 	}
 	genExhaustive(r.Fork(), 0, 13, 1, emit)
@@ -537,4 +539,6 @@ func (P) Gen(r *core.Rand, tier string, emit func([]string)) {
 	genEmptyFrames(r.Fork(), 10, 60, emit)
 	genArith(r.Fork(), emit)
 	genStreams(r.Fork(), 600, emit)
+	genCodec(r.Fork(), 3, emit)
+	genBigThenSmall(r.Fork(), tier, emit)
 }
